@@ -26,6 +26,25 @@ WIRING = [
 ]
 
 
+def i_params_immutable(F, X, rep, rid):
+    rep.rule(rid, "the configured parameters are used as configured: no field of HtlcManagerParams / TrampolineRoutingPolicy is assigned or mutably borrowed after the value was constructed (a policy adjusted on its way in is enforced and advertised instead of the configured one)")
+    import rules_hh as HH
+    n = 0
+    for adt in ("htlc_manager::HtlcManagerParams", "messages::TrampolineRoutingPolicy"):
+        a = F.adts.get(adt)
+        if not a or not a.get("variants"):
+            continue
+        for f in a["variants"][0]["fields"]:
+            n += 1
+            writes, borrows = HH.field_writes(F, adt, f["n"])
+            writes = [w for w in writes if not HH.mm.derive_like(w[0])]
+            borrows = [w for w in borrows if not HH.mm.derive_like(w[0])]
+            bad = writes or borrows
+            rep.ob(rid, not bad, adt, "%s.%s is never modified" % (adt.split("::")[-1], f["n"]), where=loc(bad[0][2]["sp"]) if bad else "", how="no assignment / &mut borrow",
+                   detail="" if not bad else "%s.%s is modified at %s after construction: the value in force differs from the configured one" % (adt.split("::")[-1], f["n"], loc(bad[0][2]["sp"])), nontrivial=False)
+    rep.anchor(rid, "fields of HtlcManagerParams and TrampolineRoutingPolicy", n, 6)
+
+
 def main_body(F):
     c = [b for b in F.code_bodies() if b.coroutine and "cln_plugin/" not in b.span.get("f", "") and any(x.name == "cln_plugin::ConfiguredPlugin::start" for x in b.calls)]
     return c[0] if len(c) == 1 else None
@@ -89,6 +108,7 @@ def run(F, X, rep):
     P.r6_verbatim(C, rep, "C19-C")
     if R.need_lc(C, rep, "C19-C"):
         PY.e_maxdelay(C, rep, "C19-C")
+    i_params_immutable(F, X, rep, "C19-I")
 
 
 def _agg_fields(F, X, b, adt):
